@@ -217,6 +217,17 @@ Section Analysis.
         place gout (core k cx cy (select gout px) (select gout py))
     end.
 
+  (* kde_methods.methods[kde_type]: kde_none is NOT decorated with
+     ignore_nan_inf - it returns ones in the shape of xout (or of the events),
+     also at nan/inf positions *)
+  Variable is_none : K -> bool.
+  Variable done : D.
+  Definition kde_method (k : K) (ex ey : list fv)
+             (pos : option (list fv * list fv)) : list D :=
+    if is_none k
+    then map (fun _ => done) (match pos with None => ex | Some (px, _) => px end)
+    else wrapped k ex ey pos.
+
   (* RTDCBase.get_kde_scatter *)
   Definition kde_scatter (fall : list bool) (k : K) (sx sy : scale)
              (xs ys : list fv) (pos : option (list fv * list fv)) : list D :=
@@ -230,7 +241,7 @@ Section Analysis.
                 end in
     match x with
     | [] => []
-    | _ => wrapped k xsc ysc pos'
+    | _ => kde_method k xsc ysc pos'
     end.
 
   (* RTDCBase.get_kde_contour *)
@@ -255,7 +266,7 @@ Section Analysis.
     | Some (mx, my) =>
         let dens := match x with
                     | [] => []
-                    | _ => wrapped k xsc ysc (Some (mx, my))
+                    | _ => kde_method k xsc ysc (Some (mx, my))
                     end in
         Some (unscale sx mx, unscale sy my, dens)
     end.
@@ -293,7 +304,9 @@ Section Analysis.
     : list fv * list fv * list bool :=
     let x := select fall xs in
     let y := select fall ys in
-    let idx := dsgrid (apply_scale sx x) (apply_scale sy y) samples rm in
+    (* never more than the number of selected events (core.py, fix of C16) *)
+    let samples' := Z.min samples (countp (fun b => b) fall) in
+    let idx := dsgrid (apply_scale sx x) (apply_scale sy y) samples' rm in
     (select idx x, select idx y, scatter_mask fall idx).
 
   (* Export.tsv: the data columns written by np.savetxt *)
@@ -333,16 +346,75 @@ Definition fake_core (_ : unit) (ex ey xo yo : list fv) : list fv :=
 Definition enc_fv (v : fv) : list Z := [fst v; if fst v =? 0 then snd v else 0].
 Definition scale_of (z : Z) : scale := if z =? 0 then Lin else Log.
 
-(* case = (enable, mask, sx, sy, xs, ys, haspos, px, py) *)
+Definition fake_core_b (_ : bool) := fake_core tt.
+Definition fone : fv := (0, 8).
+
+(* case = (enable, mask, sx, sy, xs, ys, haspos, px, py, none) *)
 Definition scatter_flat
            (case : bool * list bool * Z * Z * list fv * list fv *
-                   bool * list fv * list fv) : list Z :=
-  let '(enable, mask, sx, sy, xs, ys, haspos, px, py) := case in
+                   bool * list fv * list fv * bool) : list Z :=
+  let '(enable, mask, sx, sy, xs, ys, haspos, px, py, none) := case in
   let fall := filter_all enable mask xs in
   flat_map enc_fv
-    (kde_scatter fv fnan logf_enc unit fake_core fall tt
+    (kde_scatter fv fnan logf_enc bool fake_core_b (fun b => b) fone fall none
                  (scale_of sx) (scale_of sy) xs ys
                  (if haspos then Some (px, py) else None)).
+
+(* get_kde_contour with explicit accuracies and the stand-in estimator, linear
+   scales.  The stand-in for linspace/meshgrid: kx x ky nodes from the minimum
+   to the maximum of the jointly finite selected events (the harness chooses
+   data whose range is a multiple of the node distance, and accuracies with
+   ceil(range/acc) = k); None = the implementation raises (no finite event) *)
+Definition zmin (l : list Z) : Z := fold_right Z.min (hd 0 l) l.
+Definition zmax (l : list Z) : Z := fold_right Z.max (hd 0 l) l.
+Definition lin_nodes (lo hi k : Z) : list Z :=
+  map (fun i => if k =? 1 then lo else lo + Z.of_nat i * ((hi - lo) / (k - 1)))
+      (seq 0 (Z.to_nat k)).
+Definition mesh_fake (xa ya : option Z) (_ _ : Z) (xc yc : list fv)
+  : option (list fv * list fv) :=
+  match xa, ya, xc with
+  | Some kx, Some ky, _ :: _ =>
+      let gx := lin_nodes (zmin (map snd xc)) (zmax (map snd xc)) kx in
+      let gy := lin_nodes (zmin (map snd yc)) (zmax (map snd yc)) ky in
+      Some (flat_map (fun x => map (fun _ => (0, x)) gy) gx,
+            flat_map (fun _ => map (fun y => (0, y)) gy) gx)
+  | _, _, _ => None
+  end.
+
+(* case = (enable, mask, xs, ys, kx, ky, none) *)
+Definition contour_flat
+           (case : bool * list bool * list fv * list fv * Z * Z * bool)
+  : list Z :=
+  let '(enable, mask, xs, ys, kx, ky, none) := case in
+  let fall := filter_all enable mask xs in
+  match kde_contour fv fnan logf_enc logf_enc bool fake_core_b
+                    (fun b => b) fone Z (fun _ => 0) mesh_fake fall none
+                    Lin Lin (Some kx) (Some ky) xs ys with
+  | None => [1]
+  | Some (mx, my, dens) =>
+      0 :: zlen mx :: flat_map enc_fv mx ++ flat_map enc_fv my
+        ++ flat_map enc_fv dens
+  end.
+
+(* get_downsampled_scatter(ret_mask=True) with a stand-in for
+   downsample_grid: an event is kept iff it is finite and kx + ky + samples is
+   even (or it is not finite and remove_invalid is off) *)
+Definition dsgrid_fake (xs ys : list fv) (samples : Z) (rm : bool)
+  : list bool :=
+  map (fun p => let '(x, y) := p in
+                if finite x && finite y
+                then Z.even (snd x + snd y + samples)
+                else negb rm) (combine xs ys).
+
+(* case = (enable, mask, xs, ys, samples, rm) *)
+Definition down_flat (case : bool * list bool * list fv * list fv * Z * bool)
+  : list Z :=
+  let '(enable, mask, xs, ys, samples, rm) := case in
+  let fall := filter_all enable mask xs in
+  let '(px, py, m) := downsampled logf_enc dsgrid_fake fall Lin Lin samples
+                                  rm xs ys in
+  zlen px :: flat_map enc_fv px ++ flat_map enc_fv py
+    ++ map (fun b : bool => if b then 1 else 0) m.
 
 (* case = (a, b, data): np.percentile(data, 100*a/b) * b * 8 *)
 Definition perc_flat (case : Z * Z * list Z) : list Z :=
